@@ -4,19 +4,19 @@ import json, subprocess
 
 TREE = {
  "C01": ("6/C01", "dispatch oracle: for every applied trigger the multiset of reaction commands the framework applies (hook Apply events inside the op's bracket) equals the registrations of a shadow table rebuilt from applied register/revoke ops, entity deaths and polls; one generated case in eight is a world-reactor history (engine wr16: add / partial and full remove / trigger / despawn over WorldReactors and EntityWorldReactors) judged by its run-set oracle; a reaction scheduled for a live registration that is aborted, discarded or never run is reported"),
- "C02": ("6/C02", "delivery life-cycle oracle: every applied command has exactly one terminal outcome (ran once / aborted because its target is gone) before the tree's flush returns; postponement only while the target executes; replay at completion of the blocker"),
+ "C02": ("6/C02", "delivery life-cycle oracle: every applied command has exactly one terminal outcome (ran once / aborted because its target is gone) before the tree's flush returns; postponement only while the target executes; replay at completion of the blocker; a system collected although it still has triggers while deliveries wait for it is reported (they can no longer run although their target should exist)"),
  "C03": ("6/C03", "reader oracle: every run's full reader sample equals the data of the delivery that started it (payload id, entity), all other readers empty, at body start and body end; convenience accessors (read / entity / get_entity / is_empty) agree with the primary ones"),
  "C04": ("6/C04", "probe oracle: probes (syscall'd plain and exclusive systems with every reader) at generated tree positions read nothing; runs read nothing beyond their own event; second take fails; reacting flags clear between trees"),
  "C05": ("6/C05", "payload life-cycle oracle: Drop-logging payloads are dropped exactly once, not before every scheduled reader's body has ended or been aborted, immediately when nobody listens, by the end of the tree; no bookkeeping entity survives; events are sent through ReactCommands (all ways of obtaining one), Commands::send_system_event and, from inside queued command closures, the World wrappers (send_system_event / broadcast / entity_event)"),
- "C06": ("6/C06", "revocation oracle: shadow-table dispatch after applied revokes (same tree and later), table sizes and per-reactor registration counts (hook snapshot) equal the shadow table at every quiescent point; one generated case in eight is a world-reactor history (engine wr16) judged by its run-set oracle: triggers removed from a world reactor stop scheduling it at once, the others keep working"),
- "C07": ("6/C07", "lifetime oracle: reference-count model of every non-persistent registration call; GC events must name exactly the doomed reactors at the first collection; liveness at end of frame equals 'has a trigger left'; system state (canary) dropped exactly with the reactor; handles carried by payloads and by mid-body calls are followed; a reactor registered before the plugin is installed (sentinel) obeys the same rules; one generated case in eight is a world-reactor history (engine wr16) judged by the part of its oracle this property shares (a world reactor's system is never despawned or duplicated)"),
+ "C06": ("6/C06", "revocation oracle: shadow-table dispatch after applied revokes (same tree and later), table sizes and per-reactor registration counts (hook snapshot) equal the shadow table at every quiescent point; a poll that owes a removal / despawn reaction to a never-revoked registration after a related revocation is reported; one generated case in eight is a world-reactor history (engine wr16) judged by its run-set oracle: triggers removed from a world reactor stop scheduling it at once, the others keep working"),
+ "C07": ("6/C07", "lifetime oracle: reference-count model of every non-persistent registration call; GC events must name exactly the doomed reactors at the first collection; liveness at end of frame equals 'has a trigger left'; system state (canary) dropped exactly with the reactor; handles carried by payloads and by mid-body calls are followed; reactors registered before the plugin is installed (a persistent and a revokable sentinel) obey the same rules; one generated case in eight is a world-reactor history (engine wr16) judged by the part of its oracle this property shares (a world reactor's system is never despawned or duplicated)"),
  "C08": ("6/C08", "removal/despawn oracle: removals and despawns caused by commands, direct world access, plain Bevy systems in four slots of the frame, recursive despawn and automatic despawn (signal dropped, collected by the next garbage collection); per poll, reactions applied per (reactor, entity, component) lie between 'registered throughout' and 'registered at poll'; despawn reactions exactly the in-flight registrations; nothing pending after the end-of-frame poll; one generated case in eight is a world-reactor history (engine wr16) judged by the part of its oracle this property shares (run set of removal / despawn reactions of world reactors)"),
  "C09": ("6/C09", "structural order oracle: well-nested trace (ops of a run applied in queued order while it is innermost, every command applied inside its op's bracket or a poll, postponed commands replayed inside the completion of their blocker, never dropped instead of postponed; polled despawn reactions run within the tree whose poll took them; when the outermost runner call returns nothing is left unpolled; manual runs applied directly from inside an exclusive body; trees of 140-260 queued runs)"),
  "C11": ("6/C11", "quiescence invariant from the hook snapshot after every tree (counter, postponed buffer, four prepared lists, four reacting flags, callbacks present) and no surviving event data entity, over sequences of trees with aborts/postponements"),
- "C12": ("6/C12", "order oracle: deliveries from one sender to one target start, and their data is consumed, in the order sent (per payload id); a removal / despawn caused earlier by the same run is reacted to before a later delivery of that run to the same target starts (also when the poll in between owed the reaction and did not deliver it); the reactions one system gets for the removals of one component are queued in the order the removals happened"),
+ "C12": ("6/C12", "order oracle: deliveries from one sender to one target start, and their data is consumed, in the order sent (per payload id); a removal / despawn caused earlier by the same run is reacted to before a later delivery of that run to the same target starts (also when the poll in between owed the reaction and did not deliver it); the reactions one system gets for the removals of one component are queued in the order the removals happened; a run that misses its own data while the sender has other deliveries to the same target is reported"),
  "C13": ("6/C13", "state oracle: the k-th run of every registration sees Local == captured counter == k; its Bevy change-detection baseline (ReactRes::is_changed sampled by every generated system, predicted from the applied resource mutations) is exactly its previous run (exclusive systems: World change ticks since their previous flush); state dropped only with the system; a system that is collected or gone while it still has registered triggers is reported (state lost while it should live); one generated case in eight is a world-reactor history (engine wr16) judged by the part of its oracle this property shares (Local continuity of world reactors, their system never gone)"),
  "C15": ("6/C15", "one-off oracle: dispatch/lifetime/run-count oracles specialised to reactors registered with `once` (at most one run, gone and unregistered afterwards, empty bundle dropped)"),
- "C18": ("6/C18", "fault-injection oracle: ops naming despawned systems/entities; no panic, no run of a dead system, payload released, every other oracle still holds in that tree; system events aimed at entities that carry no system; automatic despawn requests naming dead entities"),
+ "C18": ("6/C18", "fault-injection oracle (plus one generated case in eight from the world-reactor engine wr16, incl. EntityReactor::add on an entity despawned earlier in the same batch): ops naming despawned systems/entities; no panic, no run of a dead system, payload released, every other oracle still holds in that tree; system events aimed at entities that carry no system; automatic despawn requests naming dead entities"),
 }
 
 def check(pid, engine, design, text, technique, note):
@@ -41,11 +41,11 @@ for pid, (design, text) in sorted(TREE.items()):
         "property-based testing: proptest-generated programs (byte decoder), trace + reference model oracle, structural shrinking, JSON replay", NOTE))
 
 checks.append(check("C14", "acc14", "6/C14",
-    "accessor oracle: per system run of 1..n accessor calls (React, Reactive, ReactiveMut, ReactRes, ReactResMut, World/ReactCommands triggers, ReactCommands::insert, despawns) a value/liveness model predicts the multiset of reactions seen by type-wide and entity-scoped probe reactors, the stored values and every return value; read-only world-level resource accessors agree and trigger nothing; equality is the type's PartialEq (values carry a tag nibble that equality ignores); registering and revoking unrelated reactors (component, resource, and broadcast / any_entity_event reactors keyed by the same types) in between changes nothing",
+    "accessor oracle: per system run of 1..n accessor calls (React, Reactive, ReactiveMut, ReactRes, ReactResMut, World/ReactCommands triggers, ReactCommands::insert, despawns) a value/liveness model predicts the multiset of reactions seen by type-wide and entity-scoped probe reactors, the stored values and every return value; read-only world-level resource accessors agree and trigger nothing; equality is the type's PartialEq (values carry a tag nibble that equality ignores); registering and revoking unrelated reactors (component, resource, entity-scoped single keys and tuples, and broadcast / any_entity_event reactors keyed by the same types) in between changes nothing; in half of the cases the type-wide probes are App-level reactors added before ReactPlugin",
     "property-based testing: proptest-generated call histories, reference model oracle, shrinking, JSON replay",
     "exploration only; probe reactors are the observation device; a mutation trigger whose entity died before its application still runs the type-wide reactors (exactly one trigger per call)"))
 checks.append(check("C17", "sys17", "6/C17",
-    "syscall oracle: histories of calls over syscall / named_syscall / register_named_system + named_syscall_direct / spawn_system + spawned_syscall / Commands::syscall / Commands::spawned_syscall / syscall_once (World, Commands, EntityCommands) / EntityCommands::syscall / spawn_rc_system (+ signal drop and collection) / Commands::insert_system / IdMappedSystems::revoke with nesting and command-issued calls; a key -> count model predicts every return value, the order of every queued-command effect visible on return, and every error; validation variants run their validation exactly when the key's state is created; a spawned system despawned during its own call still returns its output; each key's change-detection baseline is its own",
+    "syscall oracle: histories of calls over syscall / named_syscall / register_named_system + named_syscall_direct / spawn_system + spawned_syscall / Commands::syscall / Commands::spawned_syscall / syscall_once (World, Commands, EntityCommands) / EntityCommands::syscall / spawn_rc_system (+ signal drop and collection) / Commands::insert_system / IdMappedSystems::revoke with nesting and command-issued calls; a key -> count model predicts every return value, the order of every queued-command effect visible on return, and every error; validation variants run their validation exactly when the key's state is created; a spawned system despawned during its own call still returns its output; each key's change-detection baseline is its own; cached systems see entities in archetypes created between calls (Query)",
     "property-based testing: proptest-generated call histories, reference model oracle, shrinking, JSON replay",
     "exploration only; a re-entrant call on a running syscall / named key is generated with its own count left open (documented: only the outer-most invocation's state persists)"))
 checks.append(check("C10", "rc10", "6/C10",
